@@ -23,6 +23,16 @@ T_KEYS = {'dumps', 'timerange', 'scans', 'compscans', 'targets', 'target_tags'}
 def gen_case(rng):
     hist = c02.gen_history(rng)
     hist['calls'] = [c for c in hist['calls'][:rng.randint(0, 5)] if 'bogus_kw' not in c['extra']]
+    obs = hist['obs']
+    n_scans = len(obs['scan_states'])
+    if n_scans >= 10 and rng.random() < 0.6:
+        # a prior time selection that keeps a short run (or every second one) of the LATER scans only, so that the
+        # iteration order is exercised on sparse index sets away from zero
+        first = rng.randint(5, n_scans - 3)
+        picked = list(range(first, n_scans, rng.choice([1, 1, 2])))[:rng.randint(3, 6)]
+        mask = [any(obs['scan_events'][k] <= t < obs['scan_events'][k + 1] for k in picked) for t in range(obs['T'])]
+        hist['calls'] = [dict(bare=False, crits=[['dumps', 'index', {'ix': ['m', mask], 'arr': True}]],
+                              reset=None, extra={})]
     return dict(kind='iter', hist=hist, which=rng.choice(['scans', 'compscans']), nested=rng.random() < 0.3)
 
 
